@@ -65,14 +65,21 @@ func (wLogger) StandardWriter(o *hclog.StandardLoggerOptions) io.Writer   { retu
 // ---------------------------------------------------------------------------------------------- context
 // Same contract as package context: Done is closed on cancel, on the parent's cancellation, or at the deadline.
 type wCtx struct {
-	done   chan struct{}
-	closed bool
-	err    error
+	done     chan struct{}
+	closed   bool
+	err      error
+	timed    bool
+	deadline time.Time
 }
 
 func (c *wCtx) Deadline() (time.Time, bool) { return time.Time{}, false }
 func (c *wCtx) Done() <-chan struct{}       { return c.done }
-func (c *wCtx) Err() error                  { return c.err }
+func (c *wCtx) Err() error {
+	if c.err == nil && c.timed && !time.Now().Before(c.deadline) { // at the deadline whether or not the timer goroutine has run yet
+		c.cancel(context.DeadlineExceeded)
+	}
+	return c.err
+}
 func (c *wCtx) Value(k any) any             { return nil }
 func (c *wCtx) cancel(err error) {
 	if !c.closed {
@@ -89,7 +96,10 @@ func mBackground() context.Context { return &wCtx{} }
 func mTODO() context.Context { return &wCtx{} }
 
 func wChildCtx(parent context.Context, d time.Duration, timed bool) (*wCtx, context.CancelFunc) {
-	c := &wCtx{done: make(chan struct{})}
+	c := &wCtx{done: make(chan struct{}), timed: timed}
+	if timed {
+		c.deadline = time.Now().Add(d)
+	}
 	pd := parent.Done()
 	if pd != nil || timed {
 		var expire <-chan time.Time
@@ -465,6 +475,9 @@ func (r *wRunner) Stderr() io.ReadCloser               { return r.p.stderr }
 func (r *wRunner) Name() string                        { return "wplugin" }
 func (r *wRunner) Wait(ctx context.Context) error      { <-r.p.dead; return nil }
 func (r *wRunner) Kill(ctx context.Context) error {
+	if err := ctx.Err(); err != nil { // a runner that honours its context, as the interface invites: nothing is signalled once it is done
+		return err
+	}
 	if !r.p.isDead { // signalling a process that has already exited kills nothing
 		r.p.killed++
 		r.p.die()
